@@ -75,10 +75,10 @@ class Calc(object):
             p[0] = p[1] * p[3]
         elif p[2] == '/':
             p[0] = p[1] // p[3]
-        elif p[2] == '<<':
-            p[0] = p[1] << p[3]
-        elif p[2] == '>>':
-            p[0] = p[1] >> p[3]
+        elif p[2] in ('<<', '>>'):
+            if p[3] < 0:
+                raise ParseError("negative shift count")
+            p[0] = p[1] << p[3] if p[2] == '<<' else p[1] >> p[3]
         elif p[2] == '|':
             p[0] = p[1] | p[3]
 
